@@ -47,6 +47,7 @@ type op struct {
 	ok    bool
 	cases []selCase
 	desc  string
+	descF func() string
 }
 
 type thread struct {
@@ -260,10 +261,20 @@ func describe(t *thread) string {
 	if t.pending == nil {
 		return "running"
 	}
+	if t.pending.desc == "" && t.pending.descF != nil {
+		t.pending.desc = t.pending.descF()
+	}
 	if t.pending.desc != "" {
 		return t.pending.kind.String() + " " + t.pending.desc + " @" + t.pending.site
 	}
 	return t.pending.kind.String() + " @" + t.pending.site
+}
+
+// noPreempt: the point policy says a thread is never voluntarily preempted in
+// front of an enabled operation of this kind (the policy must not depend on the
+// site for such kinds); lets free locks skip the scheduler entirely.
+func (x *Exec) noPreempt(k OpKind) bool {
+	return x.cfg.Preempt != nil && !x.cfg.Preempt(k, "")
 }
 
 // point is the heart: the current thread announces op and yields to the scheduler.
@@ -275,7 +286,11 @@ func (x *Exec) point(o *op) {
 	t.pending = o
 	x.Points++
 	if Debug {
-		fmt.Printf("  [t%d] at %s %s @%s\n", t.id, o.kind, o.desc, o.site)
+		d := o.desc
+		if d == "" && o.descF != nil {
+			d = o.descF()
+		}
+		fmt.Printf("  [t%d] at %s %s @%s\n", t.id, o.kind, d, o.site)
 	}
 	next := x.pick()
 	if next == nil {
@@ -361,17 +376,21 @@ func (x *Exec) pick() *thread {
 			return en[0]
 		}
 		cost := curEnabled || x.cfg.FreeSwitchCost
-		var lb strings.Builder
-		for i, t := range en {
-			if i > 0 {
-				lb.WriteByte(' ')
+		label := "threads"
+		if Debug {
+			var lb strings.Builder
+			for i, t := range en {
+				if i > 0 {
+					lb.WriteByte(' ')
+				}
+				fmt.Fprintf(&lb, "%d:%s", t.id, t.pending.kind)
 			}
-			fmt.Fprintf(&lb, "%d:%s", t.id, t.pending.kind)
+			if timerAlt {
+				lb.WriteString(" timer")
+			}
+			label = lb.String()
 		}
-		if timerAlt {
-			lb.WriteString(" timer")
-		}
-		k := x.choose(nAlt, cost, lb.String(), true)
+		k := x.choose(nAlt, cost, label, true)
 		if timerAlt && k == nAlt-1 {
 			x.fireNextTimers()
 			continue
@@ -499,9 +518,25 @@ func Quiesce(site string) {
 	}})
 }
 
+var callerCache = map[uintptr]string{}
+
 func caller(skip int) string {
-	_, f, l, ok := runtime.Caller(skip)
-	if !ok {
+	var pcs [1]uintptr
+	if runtime.Callers(skip+1, pcs[:]) == 0 {
+		return "?"
+	}
+	if s, ok := callerCache[pcs[0]]; ok {
+		return s
+	}
+	s := callerSlow(pcs[0])
+	callerCache[pcs[0]] = s
+	return s
+}
+
+func callerSlow(pc uintptr) string {
+	fr, _ := runtime.CallersFrames([]uintptr{pc}).Next()
+	f, l := fr.File, fr.Line
+	if f == "" {
 		return "?"
 	}
 	if i := strings.LastIndex(f, "/"); i >= 0 {
